@@ -237,7 +237,8 @@ func vCanonPayload(cmd string, data []byte) string {
 		if json.Unmarshal(arr[3], &rows) != nil {
 			return bad
 		}
-		var out []string
+		type mrow struct{ name, scope, text string }
+		var mrows []mrow
 		allDU := len(rows) > 0
 		for _, row := range rows {
 			if len(row) != 2 {
@@ -262,26 +263,22 @@ func vCanonPayload(cmd string, data []byte) string {
 			if sc == "" {
 				sc = "-"
 			}
-			out = append(out, fmt.Sprintf("%s|%s=%s,%s,%s,%s,%s,%s", id.Name, sc, vNum(d[0]), vNum(d[1]), vNum(d[2]), vNum(d[3]), vNum(d[4]), vNum(d[5])))
+			mrows = append(mrows, mrow{id.Name, id.Scope, fmt.Sprintf("%s|%s=%s,%s,%s,%s,%s,%s", id.Name, sc, vNum(d[0]), vNum(d[1]), vNum(d[2]), vNum(d[3]), vNum(d[4]), vNum(d[5]))})
 		}
 		if allDU {
 			return "DU"
 		}
-		sort.Slice(out, func(i, j int) bool {
-			a, b := strings.SplitN(out[i], "=", 2)[0], strings.SplitN(out[j], "=", 2)[0]
-			an, bn := strings.SplitN(a, "|", 2), strings.SplitN(b, "|", 2)
-			if an[0] != bn[0] {
-				return an[0] < bn[0]
+		// (names are any bytes - a damaged message may put separators into them: sort on the decoded fields)
+		sort.SliceStable(mrows, func(i, j int) bool {
+			if mrows[i].name != mrows[j].name {
+				return mrows[i].name < mrows[j].name
 			}
-			sa, sb := an[1], bn[1]
-			if sa == "-" {
-				sa = ""
-			}
-			if sb == "-" {
-				sb = ""
-			}
-			return sa <= sb
+			return mrows[i].scope < mrows[j].scope
 		})
+		var out []string
+		for _, r := range mrows {
+			out = append(out, r.text)
+		}
 		return "M[" + strings.Join(out, " ") + "]"
 	case collector.CommandTxnEvents, collector.CommandCustomEvents, collector.CommandErrorEvents, collector.CommandSpanEvents:
 		var arr []json.RawMessage
